@@ -170,7 +170,8 @@ def build_fn(C, spec, obs_list, ders=(), out_space=None, in_space=None, record_o
                         cols.append(g2 if g2 is not None else torch.zeros_like(x2))
             env[dn] = torch.cat(cols, dim=-1)
             rec[dn] = tensor_rows(env[dn])
-        out = torch.stack([pe_torch(b, env, like) for b in body], dim=-1)
+        # components may differ in batch shape (a pre-evaluated (n, d) data tensor next to (F, n, d) outputs)
+        out = torch.stack(torch.broadcast_tensors(*[pe_torch(b, env, like) for b in body]), dim=-1)
         obs_list.append(rec)
         if record_out is not None:
             record_out.append(tensor_rows(out))
@@ -675,7 +676,9 @@ def run_per(case):
         bl, br, bb = len(rec_l.calls), len(rec_r.calls), len(rec_b.calls) if rec_b else 0
         n_obs = len(obs.resid_args)
         try:
-            out["losses"].append(float(cond.forward()))
+            lv = cond.forward()
+            out["f32"] = out.get("f32", False) or (lv.dtype == torch.float32)
+            out["losses"].append(float(lv))
         except Exception as e:  # noqa
             out["losses"].append(None)
             out["errors"].append((k, classify_exc(e)))
@@ -782,13 +785,17 @@ def judge_per(rep, case, res, replies):
         if args is None:
             rep.fail(f"periodic condition: forward call {k} never called the residual", case)
             continue
+        # the interval's end points come from a float32 GridSampler: without float64 non-periodic points the
+        # whole computation (model, residual, reduction) runs in float32
+        ltol = (2e-5, 1e-6) if res.get("f32") else (TOL["rel"], TOL["abs"])
+        atol = (2e-5, 1e-6) if not case["bspace"] else (1e-12, 1e-12)
         doc = documented_reduction(case["err"], case["red"], out)
-        if doc is None or not close(loss, float(doc), TOL["rel"], TOL["abs"]):
+        if doc is None or not close(loss, float(doc), *ltol):
             rep.fail(f"periodic: forward call {k} returned {loss!r}; documented reduction of the residual values is {float(doc)!r}", case)
         exp = expected_args_per(case, rows)
         for name, got in args.items():
             want = exp.get(name)
-            if want is None or not rows_close(expand(got, n), want, 1e-12, 1e-12):
+            if want is None or not rows_close(expand(got, n), want, *atol):
                 rep.fail(f"periodic: forward call {k}: argument '{name}' seen by the residual is not its value on its own side's rows", case,
                          detail=dict(call=k, name=name, got=[[str(v) for v in r] for r in expand(got, n)][:4],
                                      want=None if want is None else [[str(v) for v in r] for r in want][:4]))
@@ -796,13 +803,13 @@ def judge_per(rep, case, res, replies):
         if "error" in m:
             rep.disagree("per: model rejects, implementation returns a loss", dict(case=case, call=k), loss, m["error"])
             continue
-        if not close(loss, float(m["loss"]), TOL["rel"], TOL["abs"]):
+        if not close(loss, float(m["loss"]), *ltol):
             rep.disagree("per loss: drivers/C04.lean `per` vs PeriodicCondition.forward()", dict(case=case, call=k), loss, str(m["loss"]))
         names = case["resid"]["params"]
         for i in range(n):
             for j, name in enumerate(names):
                 got = expand(args[name], n)[i]
-                if not rows_close([got], [m["bound"][i][j]], 1e-12, 1e-12):
+                if not rows_close([got], [m["bound"][i][j]], *atol):
                     rep.disagree(f"per argument binding '{name}' row {i}", dict(case=case, call=k), [str(v) for v in got], [str(v) for v in m["bound"][i][j]])
                     return
 
